@@ -424,9 +424,15 @@ def execStmt (ctx : Ctx) (fuel : Nat) (env : Env) (st : State) (s : Stmt) : Env 
                let (st, rt) := evalExpr ctx fuel env st to
                match rt, st.store[iloc]? with
                | .ok tv, some iv =>
-                 (match compareVals (if down then .ge else .le) iv tv with
-                  | .ok (.bool b) => (st, R.ok b)
-                  | _ => (st, .stuck "for"))
+                 -- the end value is compared in the type of the counter (`floatOrByteAsInt` / `intOrByteAsFloat`)
+                 (match numCast (if isF then Ty.komma else Ty.zahl) tv with
+                  | .ok tv' =>
+                    (match compareVals (if down then .ge else .le) iv tv' with
+                     | .ok (.bool b) => (st, R.ok b)
+                     | _ => (st, .stuck "for"))
+                  | .fehler => (st, .fehler)
+                  | .stuck w => (st, .stuck w)
+                  | .undef w => (st, .undef w))
                | .fehler, _ => (st, .fehler)
                | .stuck w, _ => (st, .stuck w)
                | .undef w, _ => (st, .undef w)
